@@ -470,7 +470,15 @@ func (t *sseClientTransport) sendResponseMessage(response interface{}) {
 		return
 	}
 
-	ctx, cancel := context.WithTimeout(context.Background(), 30*time.Second)
+	// An answer to a server request is background activity of the SSE stream:
+	// it carries the context values of the call that opened the stream.
+	base := context.Background()
+	t.sseConn.mutex.Lock()
+	if t.sseConn.ctx != nil {
+		base = icontext.WithoutCancel(t.sseConn.ctx)
+	}
+	t.sseConn.mutex.Unlock()
+	ctx, cancel := context.WithTimeout(base, 30*time.Second)
 	defer cancel()
 
 	httpReq, err := http.NewRequestWithContext(ctx, http.MethodPost, t.endpoint.String(), bytes.NewReader(respBytes))
@@ -487,6 +495,16 @@ func (t *sseClientTransport) sendResponseMessage(response interface{}) {
 	for key, values := range t.httpHeaders {
 		for _, value := range values {
 			httpReq.Header.Add(key, value)
+		}
+	}
+
+	// Apply HTTP before-request functions.
+	if t.client != nil {
+		if err := t.client.applyHTTPBeforeRequest(ctx, httpReq); err != nil {
+			if t.logger != nil {
+				t.logger.Errorf("HTTP before-request failed, response not sent: %v", err)
+			}
+			return
 		}
 	}
 
